@@ -960,6 +960,38 @@ def bootstrap(ctx, K, RecurrencePlot, rng, nprng, quick):
             ctx.count(f"bootstrap:{which}:fed")
     ctx.correspond("bootstrap loop regenerated from numerics.pyx + resample model == "
                    "resample_*line_dist on fed draw streams", reqs, impl)
+    # (c) round 4 -- the EXPECTED histogram, exactly: the public static method
+    # `rejection_sampling(dist, M)` fed every pair of a uniform grid of draws once (shuffled;
+    # N a power of two so that u1 * N is exact): theorem bootstrap_accept_region says class x accepts
+    # exactly the pairs of the rectangle [x/N, (x+1)/N) x [0, dist[x]/S), i.e. r * t * dist[x] of them
+    for c in range(12 if quick else 120):
+        N = rng.choice([1, 2, 4, 8])
+        dist = [rng.choice([0, 1, 2, 3, 5]) for _ in range(N)]
+        if sum(dist) == 0:
+            dist[rng.randrange(N)] = rng.choice([1, 4])
+        S, r, t = sum(dist), rng.choice([1, 2, 4]), rng.choice([1, 2])
+        grid = [(Fraction(a, N * r), Fraction(b, S * t)) for a in range(N * r) for b in range(S * t)]
+        rng.shuffle(grid)
+        M = r * t * S
+        proxy = DrawProxy([u for pr in grid for u in pr])
+        old = K.random
+        replay = {"method": "rejection_sampling", "dist": dist, "M": M, "grid": [N * r, S * t]}
+        try:
+            K.random = proxy
+            got = [int(x) for x in RecurrencePlot.rejection_sampling(np.array(dist, dtype=np.int32), M)]
+        except Exception as e:  # noqa
+            ctx.fail({"kind": "bootstrap", "method": "rejection_sampling", "error": type(e).__name__},
+                     f"rejection_sampling on a uniform grid of draws raised {type(e).__name__}: {e} "
+                     "(fewer acceptances than the original distribution implies)", replay)
+            continue
+        finally:
+            K.random = old
+        ctx.count("bootstrap:uniform-grid")
+        ctx.case(("boot-grid", tuple(dist), r, t), N >= 2)
+        if got != [r * t * h for h in dist]:
+            ctx.fail({"kind": "bootstrap", "method": "rejection_sampling", "what": "expected histogram"},
+                     "rejection_sampling over a uniform grid of draws does not reproduce the original "
+                     "distribution", dict(replay, expected=[r * t * h for h in dist], observed=got))
 
 
 def scalar_correspondence(ctx):
